@@ -54,22 +54,27 @@ second-application-is-identity          split(split(ts)) has tables equal to spl
 
 Input space and bounds
 ----------------------
-quick (about 60 s with NUMBA_DISABLE_JIT=1):
+quick (about 30-40 s with NUMBA_DISABLE_JIT=1; ~6000 inputs, ~2000 of them with a node actually split):
   A  EXHAUSTIVE: 2 leaf samples {0,1}, non-sample internals {2,3} (times 1,2), genome [0,3) in 3 unit
      intervals, each interval carrying any of the 14 forests with parent id > child id (non-sample node
      with a parent has a child) or no edges: 14^3 = 2744 edge tables (adjacent equal edges squashed);
      a site in the middle of every interval with one mutation above EVERY node (so mutations on isolated
-     samples, on absent nodes, before the first and beyond the last edge all occur).
+     samples, on absent nodes, before the first and beyond the last edge all occur).  Every node owns an
+     individual and a population, so those columns are observable on copies.
   B  EXHAUSTIVE: 2 samples, 1 internal, 5 unit intervals, 4 forests each: 4^5 = 1024 tables (nodes with
      three pieces).
+  F  EXHAUSTIVE: 1 sample, internals {1,2}, 4 intervals, all 6 forests incl. dangling non-sample leaves:
+     6^4 = 1296 tables (a piece that is only ever a child).
   A' 600 seeded draws from the 18^3 tables where internal node 2 is itself a sample (never split).
-  C  24 msprime simulations (3..6 samples, haploid/diploid, historical samples) from rt.inputs with 1..4
-     random intervals deleted (simplify=False) and extra sites/mutations placed inside the holes, on
-     isolated samples and at the sequence end.
-  D  hand-built: F4 inputs (mutation on an isolated sample before its first edge; site beyond the last
-     edge), a node with 4 pieces, unreferenced non-sample node, no-edge inputs (known- clause).
-thorough (about 10 min): A with 4 intervals (14^4 = 38416), B with 6 intervals (4096), A' exhaustive
-  (5832), 5000 draws from the 46^3 tables on 3 samples + 2 internals, 200 simulations.
+  E  300 seeded draws from the 46^3 tables on 3 samples + internals {3,4}.
+  C  32 msprime simulations (3..6 samples, haploid/diploid, historical samples, full ARG) with 1..4 random
+     intervals deleted (simplify=False) and extra sites/mutations placed inside the holes, on isolated
+     samples and at the sequence ends; every third one also un-punched.
+  D  9 hand-built x 4 tag variants: F4 inputs (mutation on an isolated sample before its first edge; sites at
+     and beyond the last edge), no edge at the left end, a node with 4 pieces, abutting edges, unreferenced
+     node + nested disjoint parent/child, disjoint unary node, two no-edge inputs (known- clause).
+thorough (about 6-10 min, ~61000 inputs): A with 4 intervals (14^4 = 38416), B with 6 (4096), F with 5 (7776),
+  A' exhaustive (5832), E 5000 draws, C 200 simulations, D.
 
 Tolerances: none -- all comparisons are exact (ids, intervals, times and states are copied, not computed).
 
@@ -358,15 +363,15 @@ def check_one(rep, key, desc, ts, variant):
 
 
 # ------------------------------------------------------------------------------ input families
-def forest_options(n_leaf, internals, internal_sample=()):
+def forest_options(n_leaf, internals, internal_sample=(), dangling=False):
     """All child->parent maps on nodes 0..n_leaf+len(internals)-1 with parent an internal node of
-    larger id; a NON-sample internal node may have a parent only if it has a child."""
+    larger id; unless `dangling`, a NON-sample internal node may have a parent only if it has a child."""
     nodes = list(range(n_leaf + len(internals)))
     opts = [[None] + [p for p in internals if p > c] for c in nodes]
     res = []
     for combo in itertools.product(*opts):
         pm = {c: p for c, p in zip(nodes, combo) if p is not None}
-        if all((u in pm.values()) or (u in internal_sample) for u in pm if u >= n_leaf):
+        if dangling or all((u in pm.values()) or (u in internal_sample) for u in pm if u >= n_leaf):
             res.append(pm)
     return res
 
@@ -377,9 +382,12 @@ def forests_to_ts(forests, n_leaf, n_internal, internal_sample=(), mutate=True):
     L = len(forests)
     tables = tskit.TableCollection(float(L))
     n = n_leaf + n_internal
-    for u in range(n):
+    for _ in range(2):
+        tables.populations.add_row()
+    for u in range(n):   # every node (internal ones too) owns an individual and a population
+        tables.individuals.add_row(flags=u)
         tables.nodes.add_row(flags=tskit.NODE_IS_SAMPLE if (u < n_leaf or u in internal_sample) else 0,
-                             time=0.0 if u < n_leaf else float(u - n_leaf + 1))
+                             time=0.0 if u < n_leaf else float(u - n_leaf + 1), population=u % 2, individual=u)
     for c in range(n):
         k = 0
         while k < L:
@@ -412,8 +420,8 @@ def punch_holes(ts, rng, n_holes):
     ivs = [(cuts[2 * i], cuts[2 * i + 1]) for i in range(n_holes)]
     if rng.random() < 0.5:
         ivs[0] = (0.0, ivs[0][1])          # no edge at the left end
-    if rng.random() < 0.5:
-        ivs[-1] = (ivs[-1][0], float(L))    # no edge at the right end
+    if rng.random() < 0.5 and ivs[-1][0] > 0:
+        ivs[-1] = (ivs[-1][0], float(L))    # no edge at the right end (never the whole genome)
     tables = ts.dump_tables()
     tables.delete_intervals(ivs, simplify=False, record_provenance=False)
     tables.mutations.time = np.full(tables.mutations.num_rows, tskit.UNKNOWN_TIME)
@@ -519,7 +527,7 @@ def run(req, rep):
     logging.getLogger("tsdate").setLevel(logging.ERROR)   # "Could not set 'unsplit_node_id'" is expected
     logging.getLogger("tsdate.util").setLevel(logging.ERROR)
 
-    nA, nB = (4, 6) if thorough else (3, 5)
+    nA, nB, nF, nE = (4, 6, 5, 5000) if thorough else (3, 5, 4, 300)
     rep.space = ("split_disjoint_nodes on: [A] all edge tables with 2 leaf samples + non-sample internals {2,3} over "
                  f"{nA} unit intervals (14 forests per interval), a mutation above every node at a site in every "
                  f"interval; [B] all tables with 2 samples + 1 internal over {nB} intervals; [A'] tables with an "
@@ -565,18 +573,27 @@ def run(req, rep):
         go(f"A'{combo}", {"family": "A'", "forest_index_per_interval": list(combo)}, ts, VARIANTS[(k + 2) % 4])
     counts["A'"] = len(pick)
 
-    # ---- thorough only: 3 samples + 2 internals, random draws
-    if thorough:
+    # ---- F: one sample, internals {1,2}, dangling non-sample leaves allowed, exhaustive
+    optsF = forest_options(1, [1, 2], dangling=True)
+    k = 0
+    for combo in itertools.product(range(len(optsF)), repeat=nF):
+        ts = forests_to_ts([optsF[i] for i in combo], 1, 2)
+        go(f"F{combo}", {"family": "F", "forest_index_per_interval": list(combo)}, ts, VARIANTS[(k + 3) % 4])
+        k += 1
+    counts["F"] = k
+
+    # ---- E: 3 samples + 2 internals, random draws
+    if True:
         opts3 = forest_options(3, [3, 4])
-        for k in range(5000):
+        for k in range(nE):
             combo = tuple(int(x) for x in rng.integers(0, len(opts3), size=3))
             ts = forests_to_ts([opts3[i] for i in combo], 3, 2)
             go(f"E{combo}", {"family": "E(3 samples, internals {3,4})", "forest_index_per_interval": list(combo)}, ts,
                VARIANTS[k % 4])
-        counts["E"] = 5000
+        counts["E"] = nE
 
     # ---- C: simulations with holes
-    nsim = 200 if thorough else 24
+    nsim = 200 if thorough else 32
     for i, kind, base in sim_inputs(seed, nsim):
         holes = int(rng.integers(1, 5))
         ts, ivs = punch_holes(base, rng, holes)
@@ -593,7 +610,7 @@ def run(req, rep):
 
     rep.bound = (f"A: 14^{nA}={counts['A']} tables (exhaustive); B: 4^{nB}={counts['B']} (exhaustive); A': {counts['A\'']}"
                  f"{' (exhaustive)' if thorough else ' seeded draws of 5832'}; "
-                 + (f"E: {counts['E']} draws of 46^3; " if thorough else "")
+                 + f"F: 6^{nF}={counts['F']} (exhaustive); E: {counts['E']} draws of 46^3; "
                  + f"C: {counts['C']} simulations (<= 6 samples, L=200, 1-4 holes); D: {counts['D']} hand-built x 4 variants")
     rep.notes.append(f"inputs where at least one node was actually split: {changed[0]}")
     rep.notes.append("families A and B are enumerated exhaustively; the module as a whole is not exhaustive")
